@@ -161,11 +161,44 @@ pub struct FontEntry {
     pub lang_tags: Vec<u32>,
     pub feature_tags: Vec<u32>,
     pub has_gsub_or_gpos: bool,
+    pub variable: bool,
 }
 
 pub struct FontSet {
     /// fonts grouped; groups without any readable font are dropped
     pub groups: Vec<Vec<FontEntry>>,
+    /// (group, font) of the fonts that can exercise each feature-specific code path
+    pub focus_fonts: Vec<Vec<(u16, u16)>>,
+}
+
+/// Feature-specific code paths of gsub.rs / Font::shape that get their own generator class.
+#[derive(Clone, Copy, Debug, PartialEq)]
+pub enum Focus {
+    /// `FeatureMask::FRAC`: gsub_apply_lookups_frac / find_fraction
+    Frac = 0,
+    /// vert / vrt2 (VRT2 falls back to VERT; IS_VERT_ALT flag; vertical advances)
+    Vert = 1,
+    /// number / case / discretionary features behind non-default mask bits
+    Numbers = 2,
+    /// `Features::Custom` with `fina`: applied to the last glyph only
+    CustomFina = 3,
+    /// `Features::Custom` with aalt / salt and an alternate index
+    Alternates = 4,
+    /// variation tuple: `rvrn` ahead of everything, FeatureVariations
+    Rvrn = 5,
+}
+
+const FOCUS_ALL: [Focus; 6] = [Focus::Frac, Focus::Vert, Focus::Numbers, Focus::CustomFina, Focus::Alternates, Focus::Rvrn];
+
+fn focus_tags(f: Focus) -> &'static [&'static [u8; 4]] {
+    match f {
+        Focus::Frac => &[b"frac", b"afrc"],
+        Focus::Vert => &[b"vert", b"vrt2"],
+        Focus::Numbers => &[b"onum", b"lnum", b"tnum", b"pnum", b"zero", b"ordn", b"smcp", b"c2sc", b"dlig", b"hlig"],
+        Focus::CustomFina => &[b"fina"],
+        Focus::Alternates => &[b"aalt", b"salt"],
+        Focus::Rvrn => &[b"rvrn"],
+    }
 }
 
 static FONTS: OnceLock<FontSet> = OnceLock::new();
@@ -196,7 +229,18 @@ pub fn fonts() -> &'static FontSet {
         if !g.is_empty() {
             groups.push(g);
         }
-        FontSet { groups }
+        let mut focus_fonts = vec![Vec::new(); FOCUS_ALL.len()];
+        for (gi, g) in groups.iter().enumerate() {
+            for (fi, e) in g.iter().enumerate() {
+                for f in FOCUS_ALL {
+                    let has = focus_tags(f).iter().any(|t| e.feature_tags.contains(&tagv(t)));
+                    if has || (f == Focus::Rvrn && e.variable) {
+                        focus_fonts[f as usize].push((gi as u16, fi as u16));
+                    }
+                }
+            }
+        }
+        FontSet { groups, focus_fonts }
     })
 }
 
@@ -240,6 +284,7 @@ fn make_entry(group: &'static str, name: String, script: [u8; 4], synthetic: boo
         lang_tags: lang_tags.into_iter().collect(),
         feature_tags: feature_tags.into_iter().collect(),
         has_gsub_or_gpos: has,
+        variable: dir.iter().any(|e| &e.tag == b"fvar"),
     })
 }
 
@@ -826,9 +871,25 @@ fn synthetic_fonts() -> Vec<(&'static str, [u8; 4], Vec<u8>)> {
             (2, 0, vec![multiple_subst(&[5, 6], &[1, 2, 1, 2]), multiple_subst(&[7], &[])]),
             (4, 0, vec![ligature_subst(3, &[(vec![3, 3, 3, 3, 3, 3, 3], 42), (vec![4], 43), (vec![], 44)])]),
             (4, 8, vec![ligature_subst(9, &[(vec![9, 9], 45), (vec![10, 11, 12, 13, 14, 15, 16, 17], 46)])]),
+            (1, 0, vec![single_subst(&(27..=36).collect::<Vec<u16>>(), 20)]), // 8: digits -> 47..56
+            (4, 0, vec![ligature_subst(27, &[(vec![41, 28], 57)]), ligature_subst(47, &[(vec![41], 58)])]), // 9: "0/1", numerator + slash
+            (1, 0, vec![single_subst(&(1..=41).collect::<Vec<u16>>(), 18)]), // 10
         ];
         let gsub = layout_table(
-            &[(b"calt", vec![0, 3]), (b"ccmp", vec![5]), (b"liga", vec![6, 7]), (b"clig", vec![1, 2]), (b"rlig", vec![4])],
+            &[
+                (b"calt", vec![0, 3]),
+                (b"ccmp", vec![5]),
+                (b"liga", vec![6, 7]),
+                (b"clig", vec![1, 2]),
+                (b"rlig", vec![4]),
+                (b"frac", vec![8, 9]),
+                (b"afrc", vec![9]),
+                (b"vert", vec![10]),
+                (b"onum", vec![8]),
+                (b"smcp", vec![10, 4]),
+                (b"fina", vec![4, 6]),
+                (b"salt", vec![10]),
+            ],
             &lookups,
         );
         f.extra.push((*b"GSUB", gsub));
@@ -1044,6 +1105,8 @@ pub enum ScriptSel {
     Matching,
     Other(u32),
     Unknown(u32),
+    /// this exact tag (feature-directed cases)
+    Tag([u8; 4]),
 }
 
 #[derive(Clone, Debug, PartialEq)]
@@ -1085,6 +1148,12 @@ pub struct Case {
     pub vertical: bool,
     pub max_len: u16,
     pub text: Vec<Tok>,
+    /// appended after `text` (which is cut so that the tail fits): keeps e.g. a fraction at the
+    /// end of the run
+    pub tail: Vec<Tok>,
+    /// draw the text from this alphabet instead of the font's
+    pub alphabet: Option<[u8; 4]>,
+    pub focus: Option<Focus>,
 }
 
 const OTHER_SCRIPTS: &[&[u8; 4]] = &[
@@ -1127,6 +1196,7 @@ fn tok_strategy() -> impl Strategy<Value = Tok> {
         2 => (any::<u32>(), any::<u32>()).prop_map(|(a, b)| Tok::Foreign(a, b)),
         2 => any::<u32>().prop_map(Tok::Any),
         3 => any::<u8>().prop_map(Tok::Repeat),
+        2 => (any::<u32>(), any::<u32>(), any::<u32>()).prop_map(|(a, b, c)| Tok::Fraction(a, b, c)),
         14 => (any::<u8>(), any::<u32>(), any::<u32>(), any::<u32>()).prop_map(|(k, a, b, c)| Tok::Syl(k, a, b, c)),
     ]
 }
@@ -1198,13 +1268,155 @@ fn case_strategy(max_toks: usize, max_len: u16) -> impl Strategy<Value = Case> {
             vertical,
             max_len,
             text,
+            tail: Vec::new(),
+            alphabet: None,
+            focus: None,
         })
+}
+
+// ---- feature-directed cases: a font that has the feature, a script tag handled by the default
+// ---- shaper (where Features::Mask bits take effect), arguments that switch the path on, and a
+// ---- text that feeds it.
+
+#[derive(Clone, Debug)]
+pub struct FocusRaw {
+    pub kind: u8,
+    pub font: u32,
+    pub script: u8,
+    pub featmode: u8,
+    pub bits: u64,
+    pub alt: u8,
+    pub lang: u8,
+    pub flags: u8,
+    pub faults: Vec<Fault>,
+    pub tuple: Vec<i16>,
+    pub head: Vec<Tok>,
+    pub tail: (u32, u32, u32),
+}
+
+pub fn make_focused(r: FocusRaw, max_len: u16) -> Case {
+    let focus = FOCUS_ALL[r.kind as usize % FOCUS_ALL.len()];
+    let set = fonts();
+    let list = &set.focus_fonts[focus as usize];
+    let direct = if list.is_empty() { None } else { Some(list[pick(list.len(), r.font)]) };
+    let tags = focus_tags(focus);
+    let tag = tagv(tags[(r.alt as usize >> 4) % tags.len()]);
+    let script = match (focus, r.script % 10) {
+        (Focus::CustomFina, 0..=5) => ScriptSel::Matching,
+        (Focus::Vert, 0..=2) => ScriptSel::Tag(*b"kana"),
+        (Focus::Vert, 3) => ScriptSel::Tag(*b"hani"),
+        (_, 0..=4) => ScriptSel::Tag(*b"latn"),
+        (_, 5..=6) => ScriptSel::Tag(*b"DFLT"),
+        (_, 7) => ScriptSel::Tag(*b"cyrl"),
+        (_, 8) => ScriptSel::Matching,
+        _ => ScriptSel::Unknown(r.font ^ 0x5a5a_1234),
+    };
+    let focus_bits = match focus {
+        Focus::Frac => FeatureMask::FRAC.bits() | if r.bits & 7 == 0 { FeatureMask::AFRC.bits() } else { 0 },
+        Focus::Vert => FeatureMask::VRT2_OR_VERT.bits(),
+        Focus::Numbers => {
+            (FeatureMask::ONUM | FeatureMask::LNUM | FeatureMask::TNUM | FeatureMask::PNUM | FeatureMask::ZERO | FeatureMask::ORDN | FeatureMask::SMCP | FeatureMask::C2SC | FeatureMask::DLIG | FeatureMask::HLIG).bits()
+                & (r.bits | r.bits >> 20)
+        }
+        Focus::Rvrn => if r.bits & 1 == 0 { FeatureMask::RVRN.bits() } else { 0 },
+        _ => 0,
+    };
+    let few = r.bits & (r.bits >> 13) & (r.bits >> 29);
+    let custom = || {
+        let mut v = vec![(tag, 2u8, if r.alt & 3 == 0 { None } else { Some(r.alt & 0x0f) })];
+        for k in 0..(r.featmode as u32 >> 4) % 4 {
+            v.push(((r.bits >> (8 * k)) as u32, (k % 2) as u8, None));
+        }
+        if r.featmode & 8 != 0 {
+            v.reverse();
+        }
+        FeatSel::Custom(v)
+    };
+    let feats = match (focus, r.featmode % 8) {
+        (Focus::CustomFina | Focus::Alternates, _) => custom(),
+        (_, 0..=4) => FeatSel::Mask(focus_bits | few),
+        (_, 5) => FeatSel::MaskOnly(focus_bits | few),
+        _ => custom(),
+    };
+    let tail = match (focus, r.flags & 0xc0) {
+        (Focus::Frac, 0x00 | 0x40 | 0x80) => vec![Tok::Fraction(r.tail.0, r.tail.1, r.tail.2)],
+        (Focus::Frac, _) => Vec::new(),
+        (_, 0x00) => vec![Tok::Fraction(r.tail.0, r.tail.1, r.tail.2)],
+        _ => Vec::new(),
+    };
+    Case {
+        direct,
+        group: r.font,
+        font: r.font,
+        faults: r.faults,
+        script,
+        text_follows_script: false,
+        lang: match r.lang % 6 {
+            0..=2 => LangSel::None,
+            3 => LangSel::Dflt,
+            4 => LangSel::FontLang(r.font.rotate_left(7)),
+            _ => LangSel::WellKnown(r.font.rotate_left(11)),
+        },
+        feats,
+        tuple: if focus == Focus::Rvrn || r.flags & 0x20 != 0 { Some(r.tuple) } else { None },
+        kerning: r.flags & 1 != 0,
+        presentation_required: r.flags & 2 != 0 && r.flags & 0x10 != 0,
+        rtl: r.flags & 4 != 0,
+        vertical: if focus == Focus::Vert { r.flags & 8 == 0 } else { r.flags & 0x18 == 0x18 },
+        max_len,
+        text: r.head,
+        tail,
+        alphabet: match focus {
+            Focus::Vert => Some(*b"kana"),
+            Focus::CustomFina => None,
+            _ => Some(*b"latn"),
+        },
+        focus: Some(focus),
+    }
+}
+
+fn focus_tok_strategy() -> impl Strategy<Value = Tok> {
+    prop_oneof![
+        8 => any::<u32>().prop_map(Tok::Cons),
+        4 => any::<u32>().prop_map(Tok::Ascii),
+        3 => any::<u32>().prop_map(Tok::Special),
+        2 => any::<u32>().prop_map(Tok::Block),
+        2 => any::<u32>().prop_map(Tok::Ra),
+        1 => any::<u32>().prop_map(Tok::Mark),
+        1 => any::<u32>().prop_map(Tok::Joiner),
+        1 => any::<u32>().prop_map(Tok::Vs),
+        1 => any::<u8>().prop_map(Tok::Repeat),
+        2 => (any::<u32>(), any::<u32>(), any::<u32>()).prop_map(|(a, b, c)| Tok::Fraction(a, b, c)),
+        1 => (any::<u8>(), any::<u32>(), any::<u32>(), any::<u32>()).prop_map(|(k, a, b, c)| Tok::Syl(k, a, b, c)),
+    ]
+}
+
+fn focused_strategy(max_toks: usize, max_len: u16) -> impl Strategy<Value = Case> {
+    let kind = prop_oneof![8 => Just(0u8), 2 => Just(1u8), 3 => Just(2u8), 2 => Just(3u8), 2 => Just(4u8), 3 => Just(5u8)];
+    let faults = prop_oneof![7 => Just(Vec::new()), 3 => proptest::collection::vec(fault_strategy(), 1..=2)];
+    (
+        (kind, any::<u32>(), any::<u8>(), any::<u8>(), any::<u64>(), any::<u8>(), any::<u8>(), any::<u8>()),
+        faults,
+        proptest::collection::vec(prop_oneof![Just(0i16), Just(16384), Just(-16384), -16384i16..=16384], 0..3),
+        proptest::collection::vec(focus_tok_strategy(), 0..=max_toks.min(6)),
+        (any::<u32>(), any::<u32>(), any::<u32>()),
+    )
+        .prop_map(move |((kind, font, script, featmode, bits, alt, lang, flags), faults, tuple, head, tail)| {
+            make_focused(FocusRaw { kind, font, script, featmode, bits, alt, lang, flags, faults, tuple, head, tail }, max_len)
+        })
+}
+
+fn full_strategy(max_toks: usize, max_len: u16) -> impl Strategy<Value = Case> {
+    prop_oneof![
+        78 => case_strategy(max_toks, max_len),
+        22 => focused_strategy(max_toks, max_len),
+    ]
 }
 
 // ---- libFuzzer decoding (structure-aware: the fuzzer mutates choices, not raw font bytes)
 
 fn u_tok(u: &mut Unstructured) -> arbitrary::Result<Tok> {
-    Ok(match u.int_in_range(0u8..=24)? {
+    Ok(match u.int_in_range(0u8..=25)? {
         0..=3 => Tok::Cons(u.arbitrary()?),
         4..=5 => Tok::Halant(u.arbitrary()?),
         6 => Tok::Nukta(u.arbitrary()?),
@@ -1222,6 +1434,7 @@ fn u_tok(u: &mut Unstructured) -> arbitrary::Result<Tok> {
         20 => Tok::Foreign(u.arbitrary()?, u.arbitrary()?),
         21 => Tok::Any(u.arbitrary()?),
         22 => Tok::Repeat(u.arbitrary()?),
+        23 => Tok::Fraction(u.arbitrary()?, u.arbitrary()?, u.arbitrary()?),
         _ => Tok::Syl(u.arbitrary()?, u.arbitrary()?, u.arbitrary()?, u.arbitrary()?),
     })
 }
@@ -1247,6 +1460,34 @@ fn u_fault(u: &mut Unstructured) -> arbitrary::Result<Fault> {
 /// bytes → (font choice, script, text, flags)
 pub fn case_from_bytes(data: &[u8]) -> arbitrary::Result<Case> {
     let mut u = Unstructured::new(data);
+    let mode: u8 = u.arbitrary()?;
+    if mode < 56 {
+        // feature-directed case
+        let kind = mode % 6;
+        let font = u.arbitrary()?;
+        let script = u.arbitrary()?;
+        let featmode = u.arbitrary()?;
+        let bits = u.arbitrary()?;
+        let alt = u.arbitrary()?;
+        let lang = u.arbitrary()?;
+        let flags = u.arbitrary()?;
+        let nf = u.int_in_range(0usize..=2)?;
+        let mut faults = Vec::new();
+        for _ in 0..nf {
+            faults.push(u_fault(&mut u)?);
+        }
+        let nt = u.int_in_range(0usize..=2)?;
+        let mut tuple = Vec::new();
+        for _ in 0..nt {
+            tuple.push(u.int_in_range(-16384i16..=16384)?);
+        }
+        let tail = (u.arbitrary()?, u.arbitrary()?, u.arbitrary()?);
+        let mut head = Vec::new();
+        while !u.is_empty() && head.len() < 24 {
+            head.push(u_tok(&mut u)?);
+        }
+        return Ok(make_focused(FocusRaw { kind, font, script, featmode, bits, alt, lang, flags, faults, tuple, head, tail }, 200));
+    }
     let group = u.arbitrary()?;
     let font = u.arbitrary()?;
     let nf = u.int_in_range(0usize..=4)?;
@@ -1311,6 +1552,9 @@ pub fn case_from_bytes(data: &[u8]) -> arbitrary::Result<Case> {
         vertical: flags & 8 != 0,
         max_len: 200,
         text,
+        tail: Vec::new(),
+        alphabet: None,
+        focus: None,
     })
 }
 
@@ -1447,15 +1691,24 @@ pub fn check_case(case: &Case, rec: &mut Rec) -> CaseResult {
             (t, if t == matching { "matching" } else { "other" })
         }
         ScriptSel::Unknown(r) => (r, "unknown"),
+        ScriptSel::Tag(t) => (tagv(&t), if tagv(&t) == matching { "matching" } else { "other" }),
     };
-    let alphabet = if case.text_follows_script && script_class == "other" {
+    let alphabet = if let Some(a) = case.alphabet {
+        if entry.synthetic && &a == b"latn" {
+            &text::SYNTHETIC
+        } else {
+            alphabet_for(&a)
+        }
+    } else if case.text_follows_script && script_class == "other" {
         alphabet_for(&script_tag.to_be_bytes())
     } else if entry.synthetic && &entry.script == b"latn" {
         &text::SYNTHETIC
     } else {
         alphabet_for(&entry.script)
     };
-    let chars = text::resolve(&case.text, alphabet, case.max_len as usize);
+    let tail = text::resolve(&case.tail, alphabet, case.max_len as usize);
+    let mut chars = text::resolve(&case.text, alphabet, (case.max_len as usize).saturating_sub(tail.len()));
+    chars.extend(tail);
     let text: String = chars.iter().collect();
     let lang = match case.lang {
         LangSel::None => None,
@@ -1689,6 +1942,33 @@ pub fn check_case(case: &Case, rec: &mut Rec) -> CaseResult {
     rec.class_if(n_distance > 0, "placement:distance");
     rec.class_if(infos.iter().any(|i| i.kerning != 0), "placement:kerning");
     rec.class_if(case.vertical, "vertical");
+    if let Some(f) = case.focus {
+        rec.class(&format!("focus:{:?}", f));
+    }
+    let has_tag = |t: &[u8; 4]| entry.feature_tags.contains(&tagv(t));
+    let mask = match &features {
+        Features::Mask(m) => *m,
+        Features::Custom(_) => FeatureMask::empty(),
+    };
+    let default_shaper = shaper_name(script_tag) == "default";
+    let has_fraction = chars.windows(3).any(|w| w[0].is_ascii_digit() && w[1] == '/' && w[2].is_ascii_digit());
+    rec.class_if(has_fraction, "text:fraction");
+    let frac_path = default_shaper && mask.contains(FeatureMask::FRAC) && has_tag(b"frac") && has_fraction;
+    rec.class_if(frac_path, "path:frac(font has frac, FRAC set, default shaper, fraction in text)");
+    rec.class_if(frac_path && len != submitted, "path:frac+length-changed");
+    rec.class_if(default_shaper && mask.contains(FeatureMask::VRT2_OR_VERT) && (has_tag(b"vert") || has_tag(b"vrt2")), "path:vert");
+    rec.class_if(infos.iter().any(|i| i.glyph.is_vert_alt()), "run:vert-alternate");
+    rec.class_if(tuple.is_some() && has_tag(b"rvrn"), "path:rvrn");
+    if let Features::Custom(list) = &features {
+        rec.class_if(list.iter().any(|f| f.feature_tag == tagv(b"fina")) && has_tag(b"fina"), "path:custom-fina");
+        rec.class_if(list.iter().any(|f| f.alternate.is_some() && (f.feature_tag == tagv(b"aalt") || f.feature_tag == tagv(b"salt")) && entry.feature_tags.contains(&f.feature_tag)), "path:custom-alternate");
+        rec.class_if(list.iter().any(|f| f.feature_tag == tagv(b"rvrn")) && has_tag(b"rvrn"), "path:custom-rvrn");
+    }
+    rec.class_if(
+        default_shaper && !(mask & (FeatureMask::ONUM | FeatureMask::LNUM | FeatureMask::TNUM | FeatureMask::PNUM | FeatureMask::ZERO | FeatureMask::ORDN | FeatureMask::SMCP | FeatureMask::C2SC | FeatureMask::DLIG | FeatureMask::HLIG)).is_empty()
+            && focus_tags(Focus::Numbers).iter().any(|t| has_tag(t)),
+        "path:number-case-features",
+    );
     Ok(())
 }
 
@@ -1782,11 +2062,78 @@ fn sweep_case(plan: &[SweepItem], n: u32, mut i: u64) -> Option<Case> {
                 vertical: false,
                 max_len: 16,
                 text,
+                tail: Vec::new(),
+                alphabet: None,
+                focus: None,
             });
         }
         i -= count;
     }
     None
+}
+
+// ---- deterministic fraction sweep
+
+fn fraction_plan() -> Vec<(u16, u16)> {
+    let set = fonts();
+    let mut seen_multi = false;
+    set.focus_fonts[Focus::Frac as usize]
+        .iter()
+        .copied()
+        .filter(|(g, f)| {
+            let e = &set.groups[*g as usize][*f as usize];
+            if e.name.starts_with("synthetic/multi-script") {
+                let first = !seen_multi;
+                seen_multi = true;
+                first
+            } else {
+                true
+            }
+        })
+        .collect()
+}
+
+const FRACTION_SCRIPTS: [[u8; 4]; 2] = [*b"latn", *b"DFLT"];
+
+fn fraction_cases_per_font() -> u64 {
+    (text::LIGATURE_PREFIXES.len() * text::FRACTIONS.len() * text::FRACTION_SUFFIXES.len() * FRACTION_SCRIPTS.len() * 2) as u64
+}
+
+fn fraction_case(plan: &[(u16, u16)], i: u64) -> Case {
+    let per = fraction_cases_per_font();
+    let (g, f) = plan[((i / per) as usize).min(plan.len().saturating_sub(1))];
+    let mut k = (i % per) as usize;
+    let mut take = |n: usize| {
+        let v = k % n;
+        k /= n;
+        v
+    };
+    let p = take(text::LIGATURE_PREFIXES.len());
+    let d = take(text::FRACTIONS.len());
+    let x = take(text::FRACTION_SUFFIXES.len());
+    let sc = take(FRACTION_SCRIPTS.len());
+    let all_bits = take(2) == 1;
+    let s: String = format!("{}{}{}", text::LIGATURE_PREFIXES[p], text::FRACTIONS[d], text::FRACTION_SUFFIXES[x]);
+    Case {
+        direct: Some((g, f)),
+        group: 0,
+        font: 0,
+        faults: Vec::new(),
+        script: ScriptSel::Tag(FRACTION_SCRIPTS[sc]),
+        text_follows_script: false,
+        lang: LangSel::None,
+        feats: FeatSel::Mask(if all_bits { u64::MAX } else { FeatureMask::FRAC.bits() }),
+        tuple: None,
+        kerning: true,
+        presentation_required: false,
+        rtl: false,
+        vertical: false,
+        max_len: 64,
+        text: s.chars().map(|c| Tok::Lit(c as u32)).collect(),
+        tail: Vec::new(),
+        alphabet: None,
+        focus: Some(Focus::Frac),
+    }
 }
 
 impl Property for C02 {
@@ -1797,9 +2144,13 @@ impl Property for C02 {
         "case = (fixture or synthetic font, 0-4 byte faults inside GSUB/GPOS/GDEF/kern/morx bodies or a hidden layout table, \
          token-generated text of 0-32 (thorough 0-200) scalars from the script's alphabet biased to viramas/nuktas/reph/pre-base \
          forms/lone marks/joiners/foreign characters, script tag matching|other|unknown, language, Features::Mask|Custom, \
-         normalised tuple for variable fonts, kerning, presentation, direction, vertical); pipeline map_glyphs -> shape -> \
-         glyph_positions. Non-trivial: text non-empty, at least one glyph mapped (id != 0), font has GSUB or GPOS. Distinct: \
-         hash of (font, applied faults, resolved text, script, language, features, tuple, flags)."
+         normalised tuple for variable fonts, kerning, presentation, direction, vertical); 22 % of the random cases are \
+         feature-directed (frac / vert / number-case features / Custom fina / Custom alternates / rvrn+tuple): a font that has \
+         the feature, a default-shaper script tag, the mask bit or custom tag set, and a text that feeds the path (ligature-prone \
+         prefix + digits/digits fraction at the end of the run, kana text for vert). Deterministic sweeps: all strings of 3 \
+         (thorough also 4) key characters per script; prefix x fraction x suffix x script x mask on every font with frac. \
+         Pipeline map_glyphs -> shape -> glyph_positions. Non-trivial: text non-empty, at least one glyph mapped (id != 0), \
+         font has GSUB or GPOS. Distinct: hash of (font, applied faults, resolved text, script, language, features, tuple, flags)."
             .to_string()
     }
     fn assumptions(&self) -> Vec<String> {
@@ -1814,10 +2165,17 @@ impl Property for C02 {
         let thorough = ctx.thorough();
         let n = ctx.cases(240_000, 3_600_000);
         if thorough {
-            ctx.section("shape", n, case_strategy(40, 200), |c, rec| check_case(c, rec));
+            ctx.section("shape", n, full_strategy(40, 200), |c, rec| check_case(c, rec));
         } else {
-            ctx.section("shape", n, case_strategy(10, 32), |c, rec| check_case(c, rec));
+            ctx.section("shape", n, full_strategy(10, 32), |c, rec| check_case(c, rec));
         }
+        // seed-independent: prefix x fraction x suffix x script x mask on every font with `frac`
+        let fplan = fraction_plan();
+        let per_font = fraction_cases_per_font();
+        ctx.enumerate("fractions", fplan.len() as u64 * per_font, true, |i, rec| {
+            rec.class("sweep");
+            check_case(&fraction_case(&fplan, i), rec)
+        });
         // seed-independent: all strings of 3 key characters (thorough: also of 4 over a reduced
         // inventory) per script, on one fixture per script and on the multi-script font
         let plan = sweep_plan(false);
